@@ -36,9 +36,12 @@ type hprog struct {
 	FlushAfter int  // > 0: flush once, after this many parts (and not again)
 	Status2    int  // != 0: a second, superfluous WriteHeader call right after the first (the first must win)
 	Trailer    bool // announce and send a response trailer (X-Sum)
-	EmptyWrite bool // a zero-length Write before the first part
-	LateHeader bool // after WriteHeader the handler still changes the header map (net/http ignores that)
-	Copy       bool // the body is handed over with io.Copy from a plain reader (optional writer interfaces get probed) instead of Write calls
+	// TrailerEarly: the trailer's value is set right after WriteHeader, before the first write
+	// (the pattern of the net/http documentation), instead of after the body
+	TrailerEarly bool
+	EmptyWrite   bool // a zero-length Write before the first part
+	LateHeader   bool // after WriteHeader the handler still changes the header map (net/http ignores that)
+	Copy         bool // the body is handed over with io.Copy from a plain reader (optional writer interfaces get probed) instead of Write calls
 }
 
 type progServer struct {
@@ -112,7 +115,9 @@ func (ps *progServer) base(w http.ResponseWriter, r *http.Request) {
 	if p.FlushFirst && fl != nil {
 		fl.Flush()
 	}
-	if p.Trailer {
+	if p.Trailer && p.TrailerEarly {
+		w.Header().Set("X-Sum", "abc123")
+	} else if p.Trailer {
 		defer func() { w.Header().Set("X-Sum", "abc123") }()
 	}
 	if p.EmptyWrite {
@@ -249,6 +254,7 @@ type c14Case struct {
 	Flush    string // none, first (before any write), each, after-first (once, after the first write)
 	Status2  int    // second, superfluous WriteHeader
 	Trailer  bool
+	TrEarly  bool   // the trailer value is set before the first write
 	Empty    bool   // zero-length first write
 	AskUp    bool   // the request asks for a protocol upgrade (which the handler / backend declines)
 	Copy     bool   // body via io.Copy
@@ -261,7 +267,7 @@ type c14Case struct {
 }
 
 func (c c14Case) String() string {
-	return fmt.Sprintf("L=%d pos=%s %s status=%d writes=%v flush=%s declare=%v interim=%d entity=%d status2=%d trailer=%v emptywrite=%v asks-upgrade=%v copy=%v ctype=%q abort=%v late-header=%v", c.L, c.Position, c.Method, c.Status, c.Comp, c.Flush, c.Declare, c.Interim, c.Entity, c.Status2, c.Trailer, c.Empty, c.AskUp, c.Copy, c.CType, c.Abort, c.Late)
+	return fmt.Sprintf("L=%d pos=%s %s status=%d writes=%v flush=%s declare=%v interim=%d entity=%d status2=%d trailer=%v%s emptywrite=%v asks-upgrade=%v copy=%v ctype=%q abort=%v late-header=%v", c.L, c.Position, c.Method, c.Status, c.Comp, c.Flush, c.Declare, c.Interim, c.Entity, c.Status2, c.Trailer, map[bool]string{true: "(set before the first write)"}[c.TrEarly], c.Empty, c.AskUp, c.Copy, c.CType, c.Abort, c.Late)
 }
 
 func (c c14Case) prog() *hprog {
@@ -277,7 +283,7 @@ func (c c14Case) prog() *hprog {
 		hd = append(hd, wire.HeaderLine{"Content-Length", fmt.Sprint(c.Entity)})
 	}
 	return &hprog{Status: c.Status, Header: hd, Parts: partsOf(c.Comp, 5),
-		FlushFirst: c.Flush == "first", FlushEach: c.Flush == "each", DeclareLen: c.Declare, Interim: c.Interim, Status2: c.Status2, Trailer: c.Trailer, EmptyWrite: c.Empty,
+		FlushFirst: c.Flush == "first", FlushEach: c.Flush == "each", DeclareLen: c.Declare, Interim: c.Interim, Status2: c.Status2, Trailer: c.Trailer, TrailerEarly: c.TrEarly, EmptyWrite: c.Empty,
 		FlushAfter: map[bool]int{true: 1}[c.Flush == "after-first"], Copy: c.Copy, AbortAfter: map[bool]int{true: 1}[c.Abort], LateHeader: c.Late}
 }
 
@@ -548,6 +554,9 @@ func TestVerifC14(t *testing.T) {
 						if n > 0 {
 							// (a trailer needs a body to travel behind: without one net/http itself drops it)
 							run(c14Case{L: L, Position: pos, Method: "GET", Status: st, Comp: comp, Flush: fl, Trailer: true})
+							if st != 0 {
+								run(c14Case{L: L, Position: pos, Method: "GET", Status: st, Comp: comp, Flush: fl, Trailer: true, TrEarly: true})
+							}
 						}
 						run(c14Case{L: L, Position: pos, Method: "GET", Status: st, Comp: comp, Flush: fl, Empty: true})
 					}
